@@ -10,7 +10,7 @@ git -C /repo worktree add --detach "$wt" HEAD > /dev/null 2>&1 || { echo "cannot
 cleanup() { git -C /repo worktree remove --force "$wt" > /dev/null 2>&1; rm -rf "$vd"; }
 trap cleanup EXIT
 git -C "$wt" apply /verif/seeded/$name/patch.diff || { echo "patch does not apply"; exit 2; }
-mkdir -p "$vd/findings"; cp /verif/findings/known_findings.txt "$vd/findings/"
+mkdir -p "$vd/findings"; cp /verif/findings/known_findings.txt "$vd/findings/"; cp -r /verif/regress "$vd/" 2>/dev/null
 cd /verif
 variants="asan"; [ "$prop" = "C20" ] && variants="asan tsan"
 for v in $variants; do
